@@ -206,6 +206,9 @@ func (pmt *Payment) Calculate() error {
 	// Try to set Regime if not already prepared from the supplier's tax ID
 	if pmt.Regime.IsEmpty() {
 		pmt.SetRegime(partyTaxCountry(pmt.Supplier))
+	} else if rd := pmt.RegimeDef(); rd != nil {
+		// an alternative country code is replaced by the regime's own
+		pmt.SetRegime(rd.Country)
 	}
 	pmt.Normalize(pmt.normalizers())
 	return pmt.calculate()
